@@ -133,6 +133,23 @@ CHECKS['C13'] = dict(
     note='Trusted as for C01; the flattening function is part of the harness.',
     design='7 (C13)')
 
+CHECKS['C17'] = dict(
+    technique='Lean 4 theorems on the specification (k-fold transparent wrappers, for every k) + C01 refinement + C07 trampoline theorem + depth sweep of wrapper kinds x inner expressions across every block-budget threshold against expected values and the Lean model, plus 10^4-10^5-deep inputs',
+    text=('Proof: C17_nested_sequences, C17_nested_options, C17_nested_failing_choices (k layers yield the k-fold wrapped value, for every k and every inner expression, in the specification; the code model follows by C01), '
+          'C07_memo_transparent (the trampoline computes the recursive meaning with a flat loop). Tie: inner expressions (literal, regex, rule/class reference, template calls, inline Python and repetition counts mentioning bound names, parameters, '
+          'operator tables, never-failing expressions) x wrapper kinds x depths 1..120 (every multiple of the block budget crossed) x named/unnamed x with/without ignore are compiled and run by the real code and compared with the k-fold wrapped value; '
+          'a subset is compared with the Lean model, which has no nesting limit. PARTIAL: the split into helper functions itself and the flatness of the Python stack are not expressible in the model; inputs with 10^4 (thorough 10^5) nested brackets are run under the default recursion limit.'),
+    note='Trusted as for C01.',
+    design='7 (C17)')
+CHECKS['C18'] = dict(
+    technique='Lean 4 theorem that any interleaving of the steps of two _run machines equals their sequential runs (all state is per call) + history differential: every call of random histories against the same call alone on a freshly compiled module, threads, re-entrant and raising callbacks, later Grammar() calls',
+    text=('Proof: C18_interleaving (for every schedule, each of two machines ends where it would running alone: a step reads and writes only its own call state), with C07_memo_write_once and C08_match_outcome describing the per-call outcome. '
+          'The model has no shared state by construction, so the theorems are the oracle, not evidence about the code. Tie: random histories on one module (all entry points; texts built at run time with equal lengths so that freed texts are reused; '
+          'failing calls, calls raising from inline Python, nested parses started from inline Python; gc and Grammar() calls in between) - every outcome incl. line/column equals the outcome alone on a fresh module; 2-4 threads with a 1e-6 s switch interval; '
+          'modules extending or reusing the name of an existing module must not alter it. PARTIAL: thread schedules and the GIL are runtime behaviour, sampled only.'),
+    note='Trusted: Lean kernel; the history harness.',
+    design='7 (C18)')
+
 NOT_YET = {
 }
 
